@@ -18,7 +18,7 @@ Checks (statement of C11, nothing more)
     GLPK: variables, constraints, objective coefficients, direction; the solver-side numbers to 15 significant digits, see
     `_obs`) + model id / name / notes / annotation.
     Groups are NOT compared: the statement does not list them (the dict/JSON/YAML schema has no groups);
-  * same optimum (status class and optimal value, bcc.oracle_lp.close);
+  * same optimum (status class and optimal value, bcc.oracle_lp.close) on the models with well-scaled data (`gen_io.tame`);
   * a second round trip changes nothing (once per format and model).
 
 Failure keys "<format>:<aspect>" (gen_io.diff_aspects: a consequence of a reported cause is not reported again).  The two
@@ -169,7 +169,8 @@ def check_model(model, variants, tmp, tag, replay_base=None):
     n = 0
     above = any(r.lower_bound > cfg.upper_bound for r in model.reactions)
     o0 = _obs(model)
-    opt0 = gen_io.optimum(model)
+    is_tame = gen_io.tame(model)
+    opt0 = gen_io.optimum(model) if is_tame else None
     is_min = model.objective_direction == "min"
     idem_done = set()
 
@@ -204,8 +205,8 @@ def check_model(model, variants, tmp, tag, replay_base=None):
             else:
                 key = f"{fmt}:{aspect}"
             add(key, f"{aspect}{'' if oid is None else ' of ' + repr(oid)}: {before!r} -> {after!r}"[:400], v)
-        n += 1
-        if not d:
+        if not d and is_tame:
+            n += 1
             opt1 = gen_io.optimum(m1)
             if not gen_io.same_optimum(opt0, opt1):
                 add(f"{fmt}:optimum", f"optimum {opt0} -> {opt1} although the observation is unchanged", v)
